@@ -25,7 +25,7 @@ from pdmesh_common import split
 PROP = "C08"
 LEAVES = ["sphere", "cylinder", "ellipsoid", "line", "core_multi_shell", "barbell", "sphere@hardsphere",
           "cylinder@hayter_msa", "parallelepiped", "lamellar", "power_law", "core_shell_sphere", "guinier"]
-FIXED = ["sphere+cylinder", "sphere*cylinder", "cylinder+sphere", "line*sphere", "sphere*line",
+FIXED = ["core_multi_shell+ellipsoid", "core_multi_shell*sphere+cylinder", "sphere+cylinder", "sphere*cylinder", "cylinder+sphere", "line*sphere", "sphere*line",
          "barbell+sphere*cylinder@hardsphere", "line*sphere*cylinder", "sphere*cylinder+ellipsoid*line",
          "sphere+sphere", "core_multi_shell+sphere", "sphere@hardsphere+cylinder"]
 
@@ -70,10 +70,10 @@ def run(chk, args):
         scen = []
         tid = 0
         for e in expressions(chk.tier, chk.seed):
-            for dim in ("1d", "2d"):
+            for dim, mag in (("1d", False), ("2d", False), ("2d", True)):
                 for zero in ((True, False) if "line" in e else (False,)):
                     tid += 1
-                    scen.append({"tid": tid, "expr": e, "seed": rng.randrange(1 << 30), "dim": dim, "zero": zero})
+                    scen.append({"tid": tid, "expr": e, "seed": rng.randrange(1 << 30), "dim": dim, "zero": zero, "mag": mag})
     work = vlib.scratch("c08")
     try:
         outs = vlib.run_workers_parallel("w_mixture.py", [{"scenarios": p} for p in split(scen, vlib.NCPU)], work, timeout=3000)
@@ -100,7 +100,7 @@ def run(chk, args):
     chk.cov["rule"] = (
         "design: TLC over Mixture (all part values in {0,1,2}^2 for 2-3 parts, both operators, all part shapes); "
         "replay: fixed and generated model expressions (2-4 leaves from 13 leaf models incl. P@S, vector-parameter, "
-        "oriented and magnetic ones, permutations, zero-valued components), 1-D and 2-D, dispersity in several "
+        "oriented and magnetic ones, permutations, zero-valued components; positive, negative and zero part scales), 1-D, 2-D and 2-D polarised with a magnitude on a random SLD of every part, dispersity in several "
         "components; MixtureTrace recombines the separately evaluated leaves.")
     chk.assumptions += [
         "when polarisation is on every SLD-bearing component is given a non-zero magnetic magnitude: a component "
